@@ -133,6 +133,21 @@ def check_wrap(lines):
         if out != exp:
             bad.append((abbr, ('wrap:implicit:%s' % abbr, dict(abbr=abbr, lines=lines, expected=exp, actual=out))))
     whole = '\n'.join(lines).strip()
+    if len(clean) >= 1:
+        # the same lines supplied as ONE string: either reading is accepted (a single text -> one copy holding all of it; or its
+        # lines -> one copy per non-blank line), nothing else (e.g. several copies that each hold the whole text)
+        for abbr, f, pre, post in IMPLICIT[:2]:
+            try:
+                out = expand(abbr, {'text': '\n'.join(lines), 'options': dict(NOFMT)})
+            except Exception as e:
+                bad.append((abbr, ('wrap-string:exception:%s' % type(e).__name__, dict(abbr=abbr, text='\n'.join(lines), error=str(e)[:120]))))
+                continue
+            per_line = pre + ''.join(f(l) for l in clean) + post
+            one_copy = pre + f('\x00') + post
+            a, b_ = one_copy.split('\x00')
+            ok = out == per_line or (out.startswith(a) and out.endswith(b_) and norm(out[len(a):len(out) - len(b_)]) == norm(whole))
+            if not ok:
+                bad.append((abbr, ('wrap-string:%s' % abbr, dict(abbr=abbr, text='\n'.join(lines), actual=out, accepted=[per_line, a + whole + b_]))))
     for abbr, pre, post in PLAIN:
         try:
             out = expand(abbr, {'text': list(lines), 'options': dict(NOFMT)})
